@@ -1,0 +1,13 @@
+//go:build verif
+
+package fscache
+
+// VerifStep, when set, is called at the file-level steps of set, get and delete.
+// It only exists in builds with the "verif" tag (verification harness).
+var VerifStep func(point, key string)
+
+func verifStep(point, key string) {
+	if f := VerifStep; f != nil {
+		f(point, key)
+	}
+}
